@@ -203,7 +203,7 @@ def iso_g1(rep, tier):
     FQ = o.FQ
     rep.encoded(swu.iso_map_G1)
     rp = {"kind": "c10_iso", "args": {"group": "G1"}}
-    with core.Ctx() as ctx:
+    with core.Ctx() as ctx, world.patched(mod("py_ecc.fields.optimized_field_elements"), prime_field_inv=inv_stub_ring):
         R = Ring(p, policy=lambda live: "generic", inv0=False)
         ctx.ring = R
         x, lam = R.atom("x"), R.atom("lam")
@@ -218,6 +218,29 @@ def iso_g1(rep, tier):
         control(rep, R.prove_equal(Y * Y * Zc, X * X * X + R.const(5) * Zc * Zc * Zc), "image on y^2 = x^3 + 5")
     rep.note("the identity pins the 52 isogeny coefficients jointly: a changed coefficient gives a rational map that no longer sends E' to E")
 
+    # every case the code itself distinguishes (a division inside the map forks on its zero: the kernel of the isogeny, where the
+    # projective image is the point at infinity): the image must satisfy the projective curve equation on each of them
+    fe_o = mod("py_ecc.fields.optimized_field_elements")
+
+    def fn(R):
+        x, lam = R.atom("x"), R.atom("lam")
+        R.declare_nonzero(lam)
+        s = R.add_root("y", x * x * x + R.const(G1_A) * x + R.const(G1_B))
+        with world.patched(fe_o, prime_field_inv=inv_stub_ring):
+            return swu.iso_map_G1(FQ(x * lam), FQ(s * lam), FQ(lam))
+    try:
+        for pth, R in ring.run_paths(fn, lambda: Ring(p), max_paths=40):
+            rep.paths += 1
+            path = lits_summary(R)
+            if pth.kind != "ret":
+                rep.fail("iso_map_G1 raised %r" % (pth.value,), rp, detail=str(path))
+                continue
+            X, Y, Zc = (R.lift(c.n) for c in pth.value)
+            require(rep, R.prove_equal(Y * Y * Zc, X * X * X + R.const(4) * Zc * Zc * Zc),
+                    "iso_map_G1 image satisfies y^2 z = x^3 + 4 z^3 on every case the code distinguishes (kernel of the isogeny included)", path, rp)
+    except core.PathLimit:
+        rep.unknown("iso_map_G1 distinguishes more than 40 cases")
+
 
 @obligation("C10", "iso_map_G2_image_on_curve", bound="every point of the 3-isogenous curve over F_p^2 (x = x0 + x1 i symbolic, Y entering linearly, Y^2 replaced by g(x)), projective scaling lam in F_p^2")
 def iso_g2(rep, tier):
@@ -227,7 +250,7 @@ def iso_g2(rep, tier):
     FQ2 = o.FQ2
     rep.encoded(swu.iso_map_G2)
     rp = {"kind": "c10_iso", "args": {"group": "G2"}}
-    with core.Ctx() as ctx:
+    with core.Ctx() as ctx, world.patched(mod("py_ecc.fields.optimized_field_elements"), prime_field_inv=inv_stub_ring):
         R = Ring(p, policy=lambda live: "generic", inv0=False)
         ctx.ring = R
         x = FQ2([R.atom("x0"), R.atom("x1")])
@@ -271,9 +294,56 @@ def pipeline(rep, tier):
               and out == ("P", ("R", ("Q", "u0"), ("Q", "u1"))))
         require(rep, ok, "hash_to_%s = clear_cofactor(map(u0) + map(u1)) with (u0, u1) = hash_to_field(msg, 2, DST, H)" % g, None, rp)
         log2 = []
-        with world.patched(h, **{"optimized_swu_" + g: lambda u: log2.append(("swu", u)) or ("X", "Y", "Z"), "iso_map_" + g: lambda x, y, z: log2.append(("iso", x, y, z)) or "PT"}):
-            out = getattr(h, "map_to_curve_" + g)("U")
-        require(rep, out == "PT" and log2 == [("swu", "U"), ("iso", "X", "Y", "Z")], "map_to_curve_%s = iso_map(simplified SWU(u))" % g, None, rp)
+        out = None
+        try:
+            with world.patched(h, **{"optimized_swu_" + g: lambda u: log2.append(("swu", u)) or ("X", "Y", "Z"), "iso_map_" + g: lambda x, y, z: log2.append(("iso", x, y, z)) or "PT"}):
+                out = getattr(h, "map_to_curve_" + g)("U")
+        except Exception as e:
+            rep.note("call trace of map_to_curve_%s on opaque tokens raised %r; the projective comparison below decides" % (g, e))
+        if out == "PT" and log2 == [("swu", "U"), ("iso", "X", "Y", "Z")]:
+            rep.ok("map_to_curve_%s = iso_map(simplified SWU(u)) (call trace on opaque tokens)" % g)
+    # map_to_curve_G1 / G2 as a function: the SAME projective point as iso_map(simplified SWU(u)), on every case the code
+    # distinguishes (a normalisation by division forks on its zero, where the image is the point at infinity)
+    o = mod(OPT)
+    swu = mod(SWU)
+    fe_o = mod("py_ecc.fields.optimized_field_elements")
+    p = _p()
+    for g in ("G1", "G2"):
+        rpm = {"kind": "c10_map", "args": {"group": g, "kernel": True}}
+
+        def fn(R, g=g):
+            if g == "G1":
+                tri = tuple(o.FQ(R.atom(n_)) for n_ in ("sx", "sy", "sz"))
+            else:
+                tri = tuple(o.FQ2([R.atom(n_ + "0"), R.atom(n_ + "1")]) for n_ in ("sx", "sy", "sz"))
+            with world.patched(fe_o, prime_field_inv=inv_stub_ring):
+                with world.patched(h, **{"optimized_swu_" + g: lambda u: tri}):
+                    out = getattr(h, "map_to_curve_" + g)("U")
+                ref = getattr(swu, "iso_map_" + g)(*tri)
+            return out, ref
+        try:
+            for pth, R in ring.run_paths(fn, lambda: Ring(p), max_paths=60):
+                rep.paths += 1
+                path = lits_summary(R)
+                if pth.kind != "ret":
+                    rep.fail("map_to_curve_%s raised %r" % (g, pth.value), rpm, detail=str(path))
+                    continue
+                out, ref = pth.value
+                flat = lambda c: [R.lift(c.n)] if g == "G1" else [R.lift(x_) for x_ in cf(c)]
+                mulc = lambda a, b_: a * b_
+                okp = (isinstance(out, tuple) and len(out) == 3
+                       and all(R.prove_equal(a, b_) == "zero" for a, b_ in zip(flat(mulc(out[0], ref[2])), flat(mulc(ref[0], out[2]))))
+                       and all(R.prove_equal(a, b_) == "zero" for a, b_ in zip(flat(mulc(out[1], ref[2])), flat(mulc(ref[1], out[2])))))
+                # z of the result vanishes exactly when the reference z does (decided from the path literals)
+                st_out = [R.status(R._apply_subst(c_.comp.get(0, z3.IntVal(0)))) if not (set(c_.comp) - {0}) else None for c_ in flat(out[2])] if okp else []
+                st_ref = [R.status(R._apply_subst(c_.comp.get(0, z3.IntVal(0)))) if not (set(c_.comp) - {0}) else None for c_ in flat(ref[2])] if okp else []
+                zero_out = bool(st_out) and all(s_ == "zero" for s_ in st_out)
+                zero_ref = bool(st_ref) and all(s_ == "zero" for s_ in st_ref)
+                nz_out = any(s_ == "nonzero" for s_ in st_out)
+                okz = not ((zero_ref and nz_out) or (zero_out and any(s_ == "nonzero" for s_ in st_ref)))
+                require(rep, okp and okz, "map_to_curve_%s(u) is the projective point iso_map_%s(SWU(u)) on every case the code distinguishes (image at infinity included)" % (g, g), path, rpm)
+        except core.PathLimit:
+            rep.unknown("map_to_curve_%s distinguishes more than 60 cases" % g)
     rep.note("clear_cofactor_* and the subgroup claim are C17's obligations; hash_to_field / expand_message_xmd are C15's")
     rep.trust("cofactor clearing lands in the prime-order subgroup (group orders; C17)")
 
